@@ -608,6 +608,16 @@ func genConsCase(r *Rand, tier string, w *bufio.Writer) {
 			lagger = ids[needed]
 		}
 	}
+	// "hider" style: for stretches of the run one validator's new events stay unknown to the others (they keep
+	// referencing its last visible event) and it references few events itself; then it catches up with everybody.
+	// Votes disagree meanwhile, decisions are delayed, and the catching-up root decides several frames at once
+	// (the later ones while known roots are re-processed).
+	hider := uint64(0)
+	if nv >= 3 && r.Chance(1, 3) {
+		hider = ids[r.Intn(nv)]
+	}
+	hideTo := -1
+	catchUp := false
 	ninst := 2 + r.Intn(2)
 	for k := 0; k < ninst; k++ {
 		emit("inst %d %d", k, (k+r.Intn(4))%4)
@@ -621,6 +631,7 @@ func genConsCase(r *Rand, tier string, w *bufio.Writer) {
 	type head struct{ n, seq, lamport uint64 }
 	var all []gEvent                 // events of the current builder epoch
 	heads := map[uint64][]head{}     // creator -> known tips (several if forked)
+	var visibleHider []head          // the hider's tips as the other validators know them during a hiding window
 	lamportOf := map[uint64]uint64{} // event -> lamport
 	queue := make([][]uint64, ninst) // per laggard: events not yet processed
 	done := make([]map[uint64]bool, ninst)
@@ -682,6 +693,11 @@ func genConsCase(r *Rand, tier string, w *bufio.Writer) {
 				ci = r.Intn(nv)
 			}
 		}
+		if hider != 0 && step > hideTo && !catchUp && r.Chance(1, 5) {
+			hideTo = step + 4 + r.Intn(14)
+			visibleHider = append([]head{}, heads[hider]...)
+		}
+		hiding := hider != 0 && step <= hideTo
 		creator := ids[ci]
 		var selfParent *head
 		if hs := heads[creator]; len(hs) > 0 {
@@ -734,6 +750,15 @@ func genConsCase(r *Rand, tier string, w *bufio.Writer) {
 				np = nv
 			}
 		}
+		if creator == hider && selfParent != nil {
+			if hiding {
+				np = []int{0, 0, 1}[r.Intn(3)]
+				catchUp = true
+			} else if catchUp {
+				np = nv
+				catchUp = false
+			}
+		}
 		for _, oi := range r.Perm(nv) {
 			if np == 0 {
 				break
@@ -742,6 +767,9 @@ func genConsCase(r *Rand, tier string, w *bufio.Writer) {
 				continue
 			}
 			hs := heads[ids[oi]]
+			if hiding && ids[oi] == hider {
+				hs = visibleHider
+			}
 			if len(hs) == 0 {
 				continue
 			}
@@ -878,6 +906,7 @@ func genConsCase(r *Rand, tier string, w *bufio.Writer) {
 			builderEvents = 0
 			all = nil
 			heads = map[uint64][]head{}
+			visibleHider, hideTo, catchUp = nil, -1, false
 			if r.Chance(1, 2) {
 				for k := 1; k < ninst; k++ {
 					flush(k, 1<<30)
